@@ -148,12 +148,13 @@ def cases(draw, api):
 def parts(tier):
     return [Part(api.replace('.', '_'), cases(api), quick=800, thorough=2500)
             for api in APIS] + \
-           [Part('blocking_user_callback', c15_block.cases(), quick=150, thorough=600)]
+           [Part('blocking_user_callback', c15_block.cases(), quick=150, thorough=600),
+            Part('submit_then_wait', c15_block.submit_cases(), quick=120, thorough=500)]
 
 
 def normalise(case):
     """repair a candidate of the minimiser (or reject it)"""
-    if isinstance(case, dict) and case.get('kind') == 'blocking_callback':
+    if isinstance(case, dict) and case.get('kind') in ('blocking_callback', 'submit_then_wait'):
         return case
     try:
         if case['api'] not in APIS or not case['ents']:
@@ -226,6 +227,8 @@ def _stable_from(segs, awaited, ok, width):
 def run_case(case):
     if case.get('kind') == 'blocking_callback':
         return c15_block.run(case)
+    if case.get('kind') == 'submit_then_wait':
+        return c15_block.run_submit(case)
     res   = CaseResult()
     api   = case['api']
     kind  = KIND[api]
